@@ -21,14 +21,19 @@ func (c *Client) Release() {
 		return
 	}
 
-	client := c.client()
+	// Release should be idempotent: resource can be already acquired by
+	// another client after first call, so it should not be touched again.
+	res := c.res
+	c.res = nil
 
-	if client.IsClosed() || time.Since(c.res.CreationTime()) > c.p.options.MaxConnLifetime {
-		c.res.Destroy()
+	client := res.Value().client
+
+	if client.IsClosed() || time.Since(res.CreationTime()) > c.p.options.MaxConnLifetime {
+		res.Destroy()
 		return
 	}
 
-	c.res.Release()
+	res.Release()
 }
 
 func (c *Client) Do(ctx context.Context, q ch.Query) (err error) {
